@@ -288,6 +288,23 @@ static void run_program(Rng& r) {
   }
   uint64_t nz = 0; for (auto c : md[alive[0]].cells) nz += c != 0;
   sig(mix64(mix64(nh, nb), mix64(md[alive[0]].truth.size(), nz)));
+  {  // assignment onto an existing sketch of the same shape (or another shape) built with ANOTHER seed: the target must take over
+     // everything, including the per-row hash seeds, and then behave like the source under further updates
+    const size_t fi = alive[0];
+    for (int variant = 0; variant < 2; ++variant) {
+      const bool same_shape = variant == 0;
+      count_min_sketch<W> t(same_shape ? nh : uint8_t(nh == 255 ? 254 : nh + 1), same_shape ? nb : nb + 1, seed ^ 0x5bd1e995u);
+      t.update(uint64_t(99), W(3));
+      if (r.coin()) { t = *sk[fi]; count("assign_copy"); }
+      else { count_min_sketch<W> tmp(*sk[fi]); t = std::move(tmp); count("assign_move"); }
+      observe(t, md[fi], universe, r, "assignment", false);
+      Model<W> mt = md[fi];
+      for (int i = 0; i < 30 && !universe.empty(); ++i) { const Item& it = universe[r.below(universe.size())]; const W w = W(1 + r.below(3)); sk_update(t, it, w); mt.add(it, w); }
+      observe(t, mt, universe, r, "updates-after-assignment", false);
+      observe(*sk[fi], md[fi], universe, r, "assignment-source-unchanged", false);
+      count(same_shape ? "assign_same_shape_other_seed" : "assign_other_shape_other_seed");
+    }
+  }
   if (want_sample()) sample("{\"config\":" + jstr(G().cur_desc) + ",\"total_weight\":" + jstr(str(md[alive[0]].total)) + ",\"distinct_items\":" + std::to_string(md[alive[0]].truth.size()) + "}");
 }
 
